@@ -401,6 +401,14 @@ def run_swap(r):
             chk("ByteSwapped(Bytes)", C.ByteSwapped(C.Bytes(n)), data, data[::-1])
             chk("BitsSwapped(Bytes)", C.BitsSwapped(C.Bytes(n)), data, ref_bitrev(data))
             chk("ByteSwapped(BytesInteger)", C.ByteSwapped(C.BytesInteger(n)), data, int.from_bytes(data, "little"))
+            # every combination of the inner field's own parameters: the wrapper reverses the bytes, nothing else
+            for signed in (False, True):
+                for inner_swapped in (False, True):
+                    chk("ByteSwapped(BytesInteger signed=%s swapped=%s)" % (signed, inner_swapped), C.ByteSwapped(C.BytesInteger(n, signed=signed, swapped=inner_swapped)), data,
+                        int.from_bytes(data, "big" if inner_swapped else "little", signed=signed))
+            if n == 3:
+                for nm, order in (("Int24sb", "little"), ("Int24sl", "big"), ("Int24ub", "little"), ("Int24ul", "big")):
+                    chk("ByteSwapped(%s)" % nm, C.ByteSwapped(getattr(C, nm)), data, int.from_bytes(data, order, signed=nm[5] == "s"))
             chk("BitsSwapped(BytesInteger)", C.BitsSwapped(C.BytesInteger(n, signed=True)), data, int.from_bytes(ref_bitrev(data), "big", signed=True))
     for data in sigma(4):
         if len(data) == 4:
